@@ -48,11 +48,11 @@ MaxBuf == 10
 
 ----------------------------------------------------------------------------
 \* Record labels.  ms: stack of mode sets (last = innermost level); esc: the
-\* previous character was an unescaped backslash; open: the previous character
+\* previous character was an unescaped backslash; nbar: see BAR; open: the previous character
 \* was a `{` that opened a level; fin: the outermost level was closed by `}`
 \* (Graphviz ignores the rest); bad: "bad label format".
 
-RecInit == [ms |-> << {} >>, esc |-> FALSE, open |-> FALSE, fin |-> FALSE, bad |-> FALSE]
+RecInit == [ms |-> << {} >>, esc |-> FALSE, open |-> FALSE, fin |-> FALSE, bad |-> FALSE, nbar |-> 0]
 
 RTop(r) == r.ms[Len(r.ms)]
 RSet(r, m) == [r EXCEPT !.ms[Len(r.ms)] = m, !.open = FALSE, !.esc = FALSE]
@@ -76,11 +76,13 @@ RecFeed(r, c) ==
       [] c = GT  -> IF "INPORT" \notin m THEN RBad(r) ELSE RSet(r, m \ {"INPORT"})
       [] c = LB  -> IF m # {} THEN RBad(r)
                     ELSE [ms |-> Append([r.ms EXCEPT ![Len(r.ms)] = {"HASTABLE"}], {}),
-                          esc |-> FALSE, open |-> TRUE, fin |-> FALSE, bad |-> FALSE]
+                          esc |-> FALSE, open |-> TRUE, fin |-> FALSE, bad |-> FALSE, nbar |-> r.nbar]
       [] c = RB  -> IF "INPORT" \in m THEN RBad(r)
                     ELSE IF Len(r.ms) = 1 THEN [r EXCEPT !.fin = TRUE, !.open = FALSE]
                     ELSE [r EXCEPT !.ms = SubSeq(r.ms, 1, Len(r.ms) - 1), !.open = FALSE]
-      [] c = BAR -> IF "INPORT" \in m THEN RBad(r) ELSE RSet(r, {})
+      [] c = BAR -> IF "INPORT" \in m THEN RBad(r)
+                    \* nbar: field separators directly inside the outermost braces
+                    ELSE [RSet(r, {}) EXCEPT !.nbar = IF Len(r.ms) = 2 THEN @ + 1 ELSE @]
       [] OTHER   -> RText(r, c)
 
 \* end of the label: a trailing backslash is text; an open level, an open port or a
@@ -110,7 +112,9 @@ Init0 ==
    shrec  |-> FALSE,     \* the default node shape is `record`
    nshape |-> "inherit", \* shape given by the current statement: inherit record other
    lblbad |-> FALSE,     \* the label of the current statement is not a well-formed record label
+   lblbar |-> 0,         \* field separators of the label of the current statement
    nodes  |-> 0, bare |-> 0, edges |-> 0,
+   bars   |-> 0,         \* field separators in the labels of all node statements
    err    |-> ""]
 
 Err(cfg, e) == IF cfg.err = "" THEN [cfg EXCEPT !.err = e] ELSE cfg
@@ -129,14 +133,14 @@ IsName(tk) == IsIdTok(tk) /\ (tk.k # "id" \/ tk.t \in {"plain", "label", "shape"
 \* a statement is complete: count it, check the record label of a node statement
 EndStmt(cfg) ==
   LET c1 == CASE cfg.stmt = "node" /\ cfg.ps = "sI"  -> [cfg EXCEPT !.bare = @ + 1]
-              [] cfg.stmt = "node"                     -> [cfg EXCEPT !.nodes = @ + 1]
+              [] cfg.stmt = "node"                     -> [cfg EXCEPT !.nodes = @ + 1, !.bars = @ + cfg.lblbar]
               [] cfg.stmt = "edge"                     -> [cfg EXCEPT !.edges = @ + 1]
               [] cfg.stmt = "anode" /\ cfg.nshape # "inherit"
                                                        -> [cfg EXCEPT !.shrec = (cfg.nshape = "record")]
               [] OTHER                                 -> cfg
       isrec == cfg.nshape = "record" \/ (cfg.nshape = "inherit" /\ cfg.shrec)
       c2 == IF cfg.stmt = "node" /\ cfg.lblbad /\ isrec THEN Err(c1, "badlabel") ELSE c1
-  IN [c2 EXCEPT !.ps = "s0", !.stmt = "none", !.key = "other", !.nshape = "inherit", !.lblbad = FALSE]
+  IN [c2 EXCEPT !.ps = "s0", !.stmt = "none", !.key = "other", !.nshape = "inherit", !.lblbad = FALSE, !.lblbar = 0]
 
 RECURSIVE Tok(_, _)
 Tok(cfg, tk) ==
@@ -212,7 +216,7 @@ Tok(cfg, tk) ==
          IF ~IsName(tk) THEN Err(cfg, "attribute")
          ELSE CASE cfg.key = "shape" -> [cfg EXCEPT !.ps = "aV",
                                             !.nshape = IF tk.k = "id" /\ tk.t = "record" THEN "record" ELSE "other"]
-                [] cfg.key = "label" -> [cfg EXCEPT !.ps = "aV", !.lblbad = (tk.k = "str" /\ tk.bad)]
+                [] cfg.key = "label" -> [cfg EXCEPT !.ps = "aV", !.lblbad = (tk.k = "str" /\ tk.bad), !.lblbar = tk.nbar]
                 [] OTHER -> [cfg EXCEPT !.ps = "aV"]
     [] ps = "aV" ->
          CASE tk.k \in {",", ";"} -> [cfg EXCEPT !.ps = "a0"]
@@ -225,7 +229,7 @@ Tok(cfg, tk) ==
 
 Punct(c) == CASE c = LB -> "{" [] c = RB -> "}" [] c = LSQ -> "[" [] c = RSQ -> "]" [] c = EQ -> "="
               [] c = SEMI -> ";" [] c = COMMA -> "," [] c = COLON -> ":" [] OTHER -> "?"
-PTok(k) == [k |-> k, t |-> "plain", bad |-> FALSE]
+PTok(k) == [k |-> k, t |-> "plain", bad |-> FALSE, nbar |-> 0]
 
 \* ---- one character
 RECURSIVE Step(_, _)
@@ -245,17 +249,17 @@ Step(cfg, c) ==
     [] lx = "id" ->
          IF IsLetter(c) \/ IsDigit(c)
          THEN [cfg EXCEPT !.buf = IF Len(@) < MaxBuf THEN Append(@, Lower(c)) ELSE @]
-         ELSE Step(Tok([cfg EXCEPT !.lex = "ws"], [k |-> "id", t |-> TextClass(cfg.buf), bad |-> FALSE]), c)
+         ELSE Step(Tok([cfg EXCEPT !.lex = "ws"], [k |-> "id", t |-> TextClass(cfg.buf), bad |-> FALSE, nbar |-> 0]), c)
     [] lx = "num" ->
          IF IsDigit(c) \/ c = DOT THEN cfg
-         ELSE Step(Tok([cfg EXCEPT !.lex = "ws"], [k |-> "id", t |-> "plain", bad |-> FALSE]), c)
+         ELSE Step(Tok([cfg EXCEPT !.lex = "ws"], [k |-> "id", t |-> "plain", bad |-> FALSE, nbar |-> 0]), c)
     [] lx = "minus" ->
          CASE c = GT -> Tok([cfg EXCEPT !.lex = "ws"], PTok("->"))
            [] c = MINUS -> Tok([cfg EXCEPT !.lex = "ws"], PTok("--"))
            [] IsDigit(c) \/ c = DOT -> [cfg EXCEPT !.lex = "num"]
            [] OTHER -> Err(cfg, "character")
     [] lx = "str" ->
-         CASE c = DQ -> Tok([cfg EXCEPT !.lex = "ws"], [k |-> "str", t |-> "plain", bad |-> RecEndBad(cfg.rec)])
+         CASE c = DQ -> Tok([cfg EXCEPT !.lex = "ws"], [k |-> "str", t |-> "plain", bad |-> RecEndBad(cfg.rec), nbar |-> cfg.rec.nbar])
            [] c = BS -> [cfg EXCEPT !.lex = "stresc"]
            [] OTHER -> [cfg EXCEPT !.rec = RecFeed(@, c)]
     [] lx = "stresc" ->
@@ -267,7 +271,7 @@ Step(cfg, c) ==
            [] OTHER -> [cfg EXCEPT !.lex = "str", !.rec = RecFeed(RecFeed(@, BS), c)]
     [] lx = "html" ->
          CASE c = LT -> [cfg EXCEPT !.hd = @ + 1]
-           [] c = GT -> IF cfg.hd = 1 THEN Tok([cfg EXCEPT !.lex = "ws", !.hd = 0], [k |-> "html", t |-> "plain", bad |-> FALSE])
+           [] c = GT -> IF cfg.hd = 1 THEN Tok([cfg EXCEPT !.lex = "ws", !.hd = 0], [k |-> "html", t |-> "plain", bad |-> FALSE, nbar |-> 0])
                         ELSE [cfg EXCEPT !.hd = @ - 1]
            [] OTHER -> cfg
     [] lx = "slash" ->
